@@ -355,6 +355,7 @@ func runC09(cx *Ctx, r *Report) {
 		}
 	}
 	cx.lostUpdateRule(r, []string{"token"}, 10)
+	cx.insufficientStrict(r, "token")
 	cx.scanPrefixClosedRule(r, []string{"token"}, "scan-prefix-closed")
 	cx.keyEncodingUniformRule(r, []string{"token"}, "key-encoding-uniform")
 	{
